@@ -363,7 +363,11 @@ class FakeSelector:
         self.closed = True
 
     def _ready(self) -> list:
-        return [k for f, k in self.reg.items() if f._readable()]
+        # A descriptor closed by this process silently leaves the epoll
+        # interest list (the selector keeps its key, the kernel never
+        # reports it again): a locally closed connection is never ready.
+        return [k for f, k in self.reg.items()
+                if not f.closed and f._readable()]
 
     def select(self, timeout: Any = None) -> list:
         S.check()
